@@ -1,8 +1,9 @@
-(* C10 - executable model of urwid.Edit in BYTES mode under the 'utf8' byte encoding
-   (caption and edit text are bytes; keys are still str).
+(* C10 - executable model of urwid.Edit in BYTES mode (caption and edit text are bytes; keys are
+   still str), parametric in the byte encoding mode [m] of str_util: 'utf8', 'wide' (euc-jp, big5,
+   gbk, uhc, euc-kr) or 'narrow' (everything else, e.g. latin-1).
 
    The str_util functions on bytes are C11's model (Model/Width.v, imported read-only):
-   move_prev_char / move_next_char / calc_width / calc_text_pos / is_wide_char with mode MUtf8,
+   move_prev_char / move_next_char / calc_width / calc_text_pos / within_double_byte in the mode m,
    whose decode_one arithmetic is re-translated from urwid/str_util.py on every run
    (Gen/str_util_gen.v) and whose loops mirror the Python line by line.  This file mirrors
    Edit.keypress & co. for a bytes caption, and the text_layout coordinate maps
@@ -18,13 +19,14 @@ Open Scope Z_scope.
 
 Section BytesModel.
 Variable wcw : Z -> Z.            (* wcwidth.wcwidth(chr(c)) *)
+Variable m : tmode.               (* the process-global byte encoding: MUtf8 | MWide | MNarrow *)
 
 (* str_util.calc_width(text, a, b) on bytes, utf8 *)
-Definition bwidth (t : list Z) (a b : Z) : result Z := Width.calc_width wcw MUtf8 t a b.
+Definition bwidth (t : list Z) (a b : Z) : result Z := Width.calc_width wcw m t a b.
 
 (* str_util.calc_text_pos(text, a, b, col)[0] on bytes, utf8 *)
 Definition btpos (t : list Z) (a b c : Z) : result Z :=
-  match Width.calc_text_pos wcw MUtf8 t a b c with Ok (p, _) => Ok p | Err e => Err e end.
+  match Width.calc_text_pos wcw m t a b c with Ok (p, _) => Ok p | Err e => Err e end.
 
 (* ---------- text_layout.calc_coords ---------- *)
 Fixpoint bcc_segs (t : list Z) (segs : line) (p x y : Z) (cl : closest_t) : result ((Z * Z) + closest_t) :=
@@ -207,14 +209,14 @@ Definition bkeypress (s : st) (k : key) (w : Z) (lay : layout) : outcome :=
     | KLeft =>
         if p =? 0 then (s, [], Ok RUnhandled)
         else
-          match Width.move_prev_char MUtf8 (text s) 0 p with
+          match Width.move_prev_char m (text s) 0 p with
           | Err e => (s, [], Err e)
           | Ok p1 => (set_edit_pos s p1, [], Ok RHandled)
           end
     | KRight =>
         if p >=? zlen (text s) then (s, [], Ok RUnhandled)
         else
-          match Width.move_next_char MUtf8 (text s) p (zlen (text s)) with
+          match Width.move_next_char m (text s) p (zlen (text s)) with
           | Err e => (s, [], Err e)
           | Ok p1 => (set_edit_pos s p1, [], Ok RHandled)
           end
@@ -237,7 +239,7 @@ Definition bkeypress (s : st) (k : key) (w : Z) (lay : layout) : outcome :=
         let s0 := with_pref s None in
         if p =? 0 then (s0, [], Ok RUnhandled)
         else
-          match Width.move_prev_char MUtf8 (text s0) 0 p with
+          match Width.move_prev_char m (text s0) 0 p with
           | Err e => (s0, [], Err e)
           | Ok p1 =>
               let '(s1, sg) := set_edit_text s0 (takez p1 (text s0) ++ dropz (pos s0) (text s0)) in
@@ -247,7 +249,7 @@ Definition bkeypress (s : st) (k : key) (w : Z) (lay : layout) : outcome :=
         let s0 := with_pref s None in
         if p >=? zlen (text s0) then (s0, [], Ok RUnhandled)
         else
-          match Width.move_next_char MUtf8 (text s0) p (zlen (text s0)) with
+          match Width.move_next_char m (text s0) p (zlen (text s0)) with
           | Err e => (s0, [], Err e)
           | Ok p1 =>
               let '(s1, sg) := set_edit_text s0 (takez (pos s0) (text s0) ++ dropz p1 (text s0)) in
@@ -335,12 +337,12 @@ Fixpoint brun (s : st) (es : list event) : st * list (st * list sig * result ret
 End BytesModel.
 
 (* ---------- wire format ----------
-   100 caption(bytes list) text(bytes list) pos(oz) multiline allow_tab nwidths (cp wcwidth)* event*
+   100 (utf8) | 101 (wide) | 102 (narrow)  caption(bytes list) text(bytes list) pos(oz) multiline allow_tab nwidths (cp wcwidth)* event*
    (events and replies as in Model/Edit.v); anything else is a str-mode case of Model/Edit.v *)
 Fixpoint lookup_wcw (t : list (Z * Z)) (c : Z) : Z :=
   match t with [] => 1 | (k, w) :: r => if k =? c then w else lookup_wcw r c end.
 
-Definition run_case_bytes (l : list Z) : list Z :=
+Definition run_case_bytes (m : tmode) (l : list Z) : list Z :=
   match dec_list l with
   | Some (cap, r1) =>
     match dec_list r1 with
@@ -350,7 +352,7 @@ Definition run_case_bytes (l : list Z) : list Z :=
         match dec_assoc_w (Z.to_nat nw) r4 with
         | Some (wt, r5) =>
             let es := dec_events (length r5) r5 in
-            let '(_, outs) := brun (lookup_wcw wt) (init cap txt p (bz ml) (bz tab) None VEdit) es in
+            let '(_, outs) := brun (lookup_wcw wt) m (init cap txt p (bz ml) (bz tab) None VEdit) es in
             zlen es :: flat_map enc_out outs
         | None => [-16]
         end
@@ -363,6 +365,8 @@ Definition run_case_bytes (l : list Z) : list Z :=
 
 Definition run_case (l : list Z) : list Z :=
   match l with
-  | 100 :: r => run_case_bytes r
+  | 100 :: r => run_case_bytes MUtf8 r
+  | 101 :: r => run_case_bytes MWide r
+  | 102 :: r => run_case_bytes MNarrow r
   | _ => run_case_str l
   end.
